@@ -38,6 +38,7 @@ from common import Tree, TypedTree, Node
 COPY_OPS = ("addnode", "addtree", "copyto", "treecopy", "nodecopy", "shortnode", "shorttree")
 SHORTCUTS = ("append_child", "prepend_child", "prepend_sibling", "append_sibling")
 DEFAULT_KIND = mut.DEFAULT_KIND
+RUNAWAY_NODES = 60          # no generated copy is that large
 
 
 def kind_of(n):
@@ -475,7 +476,10 @@ def replay7(hist, *, check_from=0) -> mut.Run:
                 res = [1, 8]
         finally:
             sys.setrecursionlimit(_old)
-        after = w.obs()
+        runaway = w.allocated() - alloc0 > RUNAWAY_NODES
+        # a runaway copy (D06 on the unrepaired code: hundreds of nodes until RecursionError) is rendered as a marker the
+        # model can never produce, instead of a forest of hundreds of nodes per alternative (minutes of vm_compute)
+        after = [[-3]] if runaway else w.obs()
         step = dict(op=op, res=res, before=before, after=after, new_ids=list(range(alloc0 + 1, w.allocated() + 1)),
                     new_trees=list(range(ntrees0, len(w.trees))), coq=coq, plan=plan)
         run.obs.append([res, after])
